@@ -78,6 +78,9 @@ def classes_for(S, type_name: str, key: str, node: dict) -> list[VClass]:
                 if a.sub == "PLAIN":
                     add(VClass("STR_PADDED", padded, "QUOTED"))
                     add(VClass("STR_EMPTY", lambda q: "", "QUOTED"))
+                    # an escaped output quote inside or at the end of the text (escaped quotes are within C01; only unescaped ones are excluded)
+                    add(VClass("STR_ESC_QUOTE_END", lambda q: SStr([Atom("s", first=LOWER, last=WORD, excludes=frozenset("\"'`\\"), free=True), "\\" + q]), "QUOTED"))
+                    add(VClass("STR_ESC_QUOTE_MID", lambda q: SStr([Atom("s", first=LOWER, last=WORD, excludes=frozenset("\"'`\\"), free=True), "\\" + q, Atom("t", first=LOWER, last=CC.of("abcdefgh"), excludes=frozenset("\"'`\\"), free=True)]), "QUOTED"))
                     # free text with one bracket / brace only: not a binding, not a list expression
                     add(VClass("STR_HALF_BRACKET", lambda q: SStr([Atom("s", first=LOWER, last=WORD, excludes=frozenset("\"'`[](){}/"), free=True), "]"]), "QUOTED"))
                     add(VClass("STR_HALF_BRACE", lambda q: SStr(["{", Atom("s", first=LOWER, last=WORD, excludes=frozenset("\"'`[](){}/"), free=True)]), "QUOTED"))
@@ -166,6 +169,42 @@ def attr_line(I, pp, type_name: str, key: str, value: Any):
     if len(lines) != 3:
         return "malformed", SStr([" / ".join(pai.as_sstr(x).describe() for x in lines)])
     return "line", pai.as_sstr(lines[1])
+
+
+def glued_under_alignment(env, L):
+    """For every keyword of every type, printed as the only (hence longest) keyword of its object with
+    align_values=True under several indents: yields (type, keyword, [(indent, line start)] where the keyword
+    runs into its value)."""
+    from .layout import cdict as cd, word as W
+    from .props.c19 import special_block_rules
+
+    S, G, repo = env.S, env.G, env.repo
+    special_keys = set(special_block_rules(G))
+    repeated = repo.const("tokens", "REPEATED_KEYS")
+    for t in S.types():
+        if t == "symbolset":
+            continue
+        for k, node in sorted(S.slots(t).items()):
+            if k in special_keys:
+                continue
+            classes = [vc for vc in classes_for(S, t, k, node) if vc.expect not in ("RAISE",)]
+            if not classes:
+                continue
+            vc = next((c for c in classes if c.expect == "BARE_NUM"), classes[0])
+            bad = []
+            for indent in (0, 1, 2, 4, 7):
+                is_rep = k in repeated
+                mk = lambda t=t, k=k, vc=vc, is_rep=is_rep: cd([("__type__", t), (k, [W("rep")] if is_rep else vc.make('"'))])
+                outs = L.format_lines(mk, lambda indent=indent: L.sym_options(end_comment=False, align_values=True, indent=indent, spacer=" "), level=0, fork=False)
+                if len(outs) != 1 or outs[0][1] != "return":
+                    raise AnalysisError(f"_format not evaluable for {t}.{k}: {outs}")
+                for ln in outs[0][2]:
+                    s2 = pai.as_sstr(ln)
+                    txt = "".join(p if isinstance(p, str) else "\u25a1" for p in s2.pieces)
+                    stripped = txt.lstrip(" ")
+                    if stripped.upper().startswith(k.upper()) and len(stripped) > len(k) and stripped[len(k)] != " ":
+                        bad.append((indent, stripped[:24]))
+            yield t, k, bad
 
 
 class PrinterRaised(AnalysisError):
